@@ -48,8 +48,11 @@ def gen_params(rng, adversarial):
     long_labels = n >= 3 and rng.random() < 0.25
     params = {}
     for k in names:
-        kind = rng.choice(["int", "float", "str", "str", "dots", "mixed"] + (["adv"] if adversarial else []))
+        kind = rng.choice(["int", "float", "str", "str", "dots", "mixed", "nf"] + (["adv"] if adversarial else []))
         vals = [gen_value(rng, kind) for _ in range(rows)]
+        if kind == "nf":
+            # different strings that are canonically equivalent (composed / decomposed spellings)
+            vals = rng.sample(["caf\u00e9", "cafe\u0301", "\u00c5ngstr\u00f6m", "A\u030angstro\u0308m", "cafe", "Angstrom"], 4)[:rows]
         if kind == "mixed":
             # one column holding values that are equal as Python objects but are written differently
             vals = rng.sample(rng.choice([[1, 1.0, 2, True], [0, 0.0, False, 3], [2, 2.0, "2", 2.5],
@@ -147,6 +150,10 @@ def gen_spec(rng, root, adversarial=False, dep_dir=None):
     if dep_dir and rng.random() < 0.4:
         deps = {"paths": [{"name": "DEP", "path": dep_dir}]}
         env_tokens.append("DEP")
+        if rng.random() < 0.4:
+            # the documented use of a label: a path below a dependency
+            labels["DLBL"] = "$(DEP)/bin/tool"
+            env_tokens.append("DLBL")
     steps = []
     ancestors = {}
     for i, nm in enumerate(names):
@@ -173,6 +180,8 @@ def gen_spec(rng, root, adversarial=False, dep_dir=None):
             run["depends"] = depends
         if rng.random() < 0.35:
             run["restart"] = gen_text(rng, params, refs, env_tokens)
+            if rng.random() < 0.12:
+                run["restart"] = rng.choice([" ", "  \n", "\t"])      # a restart command all the same
         if rng.random() < 0.3:
             run["nodes"] = rng.choice([1, 2] + (["$(%s)" % rng.choice(list(params))] if params else []))
         if rng.random() < 0.3:
